@@ -375,10 +375,15 @@ func (gb *gcpBalancer) getReadySubConnRef(boundKey string) (*subConnRef, bool) {
 				if sc, ok := gb.fallbackMap[boundKey]; ok {
 					return gb.scRefs[sc], true
 				}
-				// Try to create fallback mapping.
-				if scRef, err := gb.picker.(*gcpPicker).getLeastBusySubConnRef(); err == nil {
-					gb.fallbackMap[boundKey] = scRef.subConn
-					return scRef, true
+				// Try to create fallback mapping to the least busy ready subconn of the
+				// current picker. The balancer mutex is held here, so this must neither
+				// lock it again nor grow the pool. The current picker may have no ready
+				// subconns (or be an error picker) when called from a stale picker.
+				if p, ok := gb.picker.(*gcpPicker); ok {
+					if scRef, _ := p.minStreamsSubConnRef(); scRef != nil {
+						gb.fallbackMap[boundKey] = scRef.subConn
+						return scRef, true
+					}
 				}
 			}
 			return nil, true
